@@ -166,15 +166,17 @@ Definition run_world_masked (mc : list nat * world_case) : val := project (fst m
 
 (* ---------- C06: the same histories on the instance that also has the swap controller ---------- *)
 From Orbiter Require Import Model.Swap.
-Definition step_swap (cfg : config) (e : env) (pool : string) (w : world) (o : op) : world * out :=
+Definition step_swap (g : gas_fn) (cfg : config) (e : env) (pool : string) (w : world) (o : op) : world * out :=
   match o with
-  | ORecv p tape lie => let r := recv_with repaired cfg (swap_actions cfg e pool) e w p tape lie in (rr_world r, OutRecv r)
-  | _ => step cfg e w o
+  | ORecv p tape lie => let r := recv_with (with_gas repaired g) cfg (swap_actions cfg e pool) e w p tape lie in (rr_world r, OutRecv r)
+  | OExtPanics p tape lie k =>
+      (w, OutExtPanic (firstn k (rr_trace (recv_with (with_gas repaired g) cfg (swap_actions cfg e pool) e w p tape lie))))
+  | _ => step_gas g cfg e w o
   end.
 Fixpoint run_swap_ops (c : world_case) (cfg : config) (e : env) (pool : string) (w : world) (ops : list op) : list val :=
   match ops with
   | [] => []
-  | o :: r => let '(w1, x) := step_swap cfg e pool w o in v_out c cfg w1 x :: run_swap_ops c cfg e pool w1 r
+  | o :: r => let '(w1, x) := step_swap (gas_of c) cfg e pool w o in v_out c cfg w1 x :: run_swap_ops c cfg e pool w1 r
   end.
 Definition run_world_swap (mc : (list nat * string) * world_case) : val :=
   let '((mask, pool), c) := mc in
